@@ -237,6 +237,272 @@ class ScriptedNS(dns.nameserver.Nameserver):
         return scripted_exchange(self.env, self.ident, request, timeout, max_size)
 
 
+# ---------------------------------------------------------------- wire level: real dns.query.udp/tcp over scripted sockets
+# In the `wire` family the real dns.query.udp / tcp (and dns.asyncquery twins) run over scripted socket
+# objects, so that receive_udp / receive_tcp / Message.is_response / from_wire are on the path.  A script
+# entry is then [duration, [kind, aux, message]]:
+#   kind 0 normal reply, 1 header-only reply (empty question section) with the message's rcode,
+#        2 reply with the TC bit, 3 garbage, 4 silence on UDP / connection closed on TCP, 5 QR bit clear,
+#        6 socket error, 7 silence;   aux (before the reply): 0 nothing, 1 datagram with a wrong id,
+#        2 with another question, 3 from another address, 4 garbage.
+# Responses are recognised by their message id: query number i carries id i + 1.
+
+def ridx(resp):
+    v = getattr(resp, "_c16_idx", None)
+    return v if v is not None else resp.id - 1
+
+
+def wire_rdata(rdclass, rdtype, data, qname):
+    if rdtype == A and rdclass == 1:
+        return dns.rdata.from_text(rdclass, rdtype, f"10.0.0.{data % 256}")
+    return make_rdata(rdclass, rdtype, data, qname)
+
+
+class WireExchange:
+    """what the scripted peer does for one query"""
+
+    def __init__(self, env, ident, where, q, idx, dur, wreply, tcp):
+        kind, aux, msg = wreply
+        self.env, self.where, self.tcp, self.kind = env, where, tcp, kind
+        self.start = env.clock.ms
+        self.arrival = self.start + dur
+        self.error = kind == 6
+        genuine = None
+        if kind in (0, 1, 2, 5):
+            r = dns.message.make_response(q)
+            qr, rcode, nq, ans, auth = msg
+            r.set_rcode(rcode)
+            for sec, rrs in ((r.answer, ans), (r.authority, auth)):
+                for owner, rdclass, rdtype, ttl, data in rrs:
+                    name = q.question[0].name if owner is None else mkname(owner)
+                    rrset = r.find_rrset(sec, name, rdclass, rdtype, create=True)
+                    rrset.add(wire_rdata(rdclass, rdtype, data, q.question[0].name), ttl)
+            if kind == 1:
+                r.question = []
+            if kind == 2:
+                r.flags |= dns.flags.TC
+            if kind == 5:
+                r.flags &= ~dns.flags.QR
+            genuine = r.to_wire()
+        elif kind == 3:
+            genuine = b"\x00\x01\x02\x03\x04"
+        self.datagrams = []  # (arrival ms, wire, from address)
+        early = self.start + dur // 2
+        if not tcp:
+            if aux == 1:
+                r = dns.message.make_response(q)
+                r.id = (q.id + 77) & 0xFFFF
+                self.datagrams.append((early, r.to_wire(), (where, 53)))
+            elif aux == 2:
+                r = dns.message.make_response(dns.message.make_query("spoofed.example.", "A", id=q.id))
+                self.datagrams.append((early, r.to_wire(), (where, 53)))
+            elif aux == 3:
+                self.datagrams.append((early, dns.message.make_response(q).to_wire(), ("10.99.99.99", 53)))
+            elif aux == 4:
+                self.datagrams.append((early, b"\xff\xfe\xfd", (where, 53)))
+            if genuine is not None:
+                self.datagrams.append((self.arrival, genuine, (where, 53)))
+            self.stream = None
+        else:
+            if genuine is not None:
+                self.stream = len(genuine).to_bytes(2, "big") + genuine
+            elif kind == 4:
+                self.stream = b""  # EOF at arrival
+            else:
+                self.stream = None  # silence
+
+    def next_time(self):
+        if self.tcp:
+            return self.arrival if self.stream is not None else None
+        return self.datagrams[0][0] if self.datagrams else None
+
+    def wait(self, exp_ms):
+        """advance the clock to the next arrival or to the expiration (then Timeout)"""
+        t = self.next_time()
+        clock = self.env.clock
+        if exp_ms is not None and (t is None or t >= exp_ms):
+            clock.ms = max(clock.ms, exp_ms)
+            raise dns.exception.Timeout
+        if t is None:
+            raise Runaway()  # waiting forever
+        clock.ms = max(clock.ms, t)
+
+    def recvfrom(self):
+        if self.datagrams and self.datagrams[0][0] <= self.env.clock.ms:
+            _, w, frm = self.datagrams.pop(0)
+            return w, frm
+        raise BlockingIOError
+
+    def recv(self, count):
+        if self.stream is not None and self.arrival <= self.env.clock.ms:
+            if self.stream == b"":
+                return b""
+            out, self.stream = self.stream[:count], self.stream[count:]
+            if self.stream == b"":
+                self.stream = None if out else b""
+            return out
+        raise BlockingIOError
+
+
+class FakeSocket:
+    """scripted stand-in for a non-blocking socket.socket"""
+
+    def __init__(self, env, af, kind):
+        self.env, self.family, self.type = env, af, kind
+
+    def setblocking(self, flag):
+        pass
+
+    def bind(self, addr):
+        pass
+
+    def close(self):
+        pass
+
+    def __enter__(self):
+        return self
+
+    def __exit__(self, *a):
+        return False
+
+    def fileno(self):
+        return -1
+
+    def sendto(self, data, dest):
+        if self.env.exchange.error:
+            raise OSError("scripted network error")
+        return len(data)
+
+    def send(self, data):
+        return len(data)
+
+    def connect_ex(self, addr):
+        if self.env.exchange.error:
+            raise OSError("scripted network error")
+        return 0
+
+    def getsockopt(self, *a):
+        return 0
+
+    def recvfrom(self, n):
+        return self.env.exchange.recvfrom()
+
+    def recv(self, n):
+        return self.env.exchange.recv(n)
+
+
+import dns._asyncbackend  # noqa: E402
+
+
+class FakeAsyncDgram(dns._asyncbackend.DatagramSocket):
+    def __init__(self, env, af):
+        super().__init__(af, socket.SOCK_DGRAM)
+        self.env = env
+
+    async def sendto(self, what, destination, timeout):
+        if self.env.exchange.error:
+            raise OSError("scripted network error")
+        return len(what)
+
+    async def recvfrom(self, size, timeout):
+        ex = self.env.exchange
+        while True:
+            try:
+                return ex.recvfrom()
+            except BlockingIOError:
+                ex.wait(None if timeout is None else self.env.clock.ms + to_ms(timeout))
+
+    async def close(self):
+        pass
+
+    async def getpeername(self):
+        return (self.env.exchange.where, 53)
+
+    async def getsockname(self):
+        return ("0.0.0.0", 0)
+
+
+class FakeAsyncStream(dns._asyncbackend.StreamSocket):
+    def __init__(self, env, af):
+        self.family = af
+        self.type = socket.SOCK_STREAM
+        self.env = env
+
+    async def sendall(self, what, timeout):
+        return None
+
+    async def recv(self, size, timeout):
+        ex = self.env.exchange
+        while True:
+            try:
+                return ex.recv(size)
+            except BlockingIOError:
+                ex.wait(None if timeout is None else self.env.clock.ms + to_ms(timeout))
+
+    async def close(self):
+        pass
+
+    async def getpeername(self):
+        return (self.env.exchange.where, 53)
+
+    async def getsockname(self):
+        return ("0.0.0.0", 0)
+
+
+class WireLayer:
+    """wrappers that record the query and then call the REAL dns.query / dns.asyncquery functions"""
+
+    def __init__(self, env, by_where, real):
+        self.env, self.by_where, self.real = env, by_where, real
+        self.anomalies = []
+
+    def note(self, what):
+        if what not in self.anomalies:
+            self.anomalies.append(what)
+
+    def begin(self, q, where, timeout, tcp):
+        env = self.env
+        idx = env.pos
+        if idx > MAX_QUERIES:
+            raise Runaway()
+        dur, wreply = env.script[idx] if idx < len(env.script) else env.tail
+        env.pos += 1
+        tms = timeout * 1000
+        tms = int(tms) if F(tms).denominator == 1 else -777777
+        env.trace.append([self.by_where.get(where, -1), int(tcp), env.pending_backoff, tms, labels_of(q.question[0].name), idx])
+        env.pending_backoff = 0
+        q.id = idx + 1
+        env.exchange = WireExchange(env, self.by_where.get(where, -1), where, q, idx, dur, wreply, tcp)
+
+    def udp(self, q, where, timeout=None, *a, **kw):
+        self.begin(q, where, timeout, False)
+        return self.real["udp"](q, where, timeout, *a, **kw)
+
+    def tcp(self, q, where, timeout=None, *a, **kw):
+        self.begin(q, where, timeout, True)
+        return self.real["tcp"](q, where, timeout, *a, **kw)
+
+    async def audp(self, q, where, timeout=None, *a, **kw):
+        self.begin(q, where, timeout, False)
+        return await self.real["audp"](q, where, timeout, *a, **kw)
+
+    async def atcp(self, q, where, timeout=None, *a, **kw):
+        self.begin(q, where, timeout, True)
+        return await self.real["atcp"](q, where, timeout, *a, **kw)
+
+    def wait_for(self, fd, readable, writable, _, expiration):
+        if not readable:
+            return
+        self.env.exchange.wait(None if expiration is None else to_ms(expiration))
+
+
+def is_wire_case(case):
+    script, tail = case[2], case[3]
+    return any((not isinstance(o[1], int)) and len(o[1]) == 3 for o in list(script) + [tail])
+
+
+
+
 def do53_address(ident):
     return f"10.0.{ident // 200}.{ident % 200 + 1}"
 
@@ -328,7 +594,7 @@ def answer_obs(a, env_servers):
         to_ms(a.expiration),
         env_servers.get(a.nameserver, None),
         len(a.chaining_result.cnames),
-        getattr(a.response, "_c16_idx", -1),
+        ridx(a.response),
     ]
 
 
@@ -336,11 +602,11 @@ def final_obs(result, exc, servers_by_answer_name, servers_by_str):
     if exc is None:
         return [0] + answer_obs(result, servers_by_answer_name)
     if isinstance(exc, dns.resolver.NoAnswer):
-        return [1, getattr(exc.kwargs["response"], "_c16_idx", -1)]
+        return [1, ridx(exc.kwargs["response"])]
     if isinstance(exc, dns.resolver.NXDOMAIN):
         qn = list(exc.kwargs["qnames"])
         resp = exc.kwargs["responses"]
-        return [2, [labels_of(n) for n in qn], [getattr(resp[n], "_c16_idx", -1) if n in resp else None for n in qn]]
+        return [2, [labels_of(n) for n in qn], [ridx(resp[n]) if n in resp else None for n in qn]]
     if isinstance(exc, dns.resolver.YXDOMAIN):
         return [3]
     if isinstance(exc, dns.resolver.NoNameservers):
@@ -389,7 +655,7 @@ def cache_probes(res, qname, rdtype, rdclass, srch):
                 v = res.cache.get((key[0], dns.rdatatype.RdataType.make(key[1]), dns.rdataclass.RdataClass.make(key[2])))
             except Exception:  # noqa: BLE001
                 v = None
-            pr.append(None if v is None else getattr(v.response, "_c16_idx", -1))
+            pr.append(None if v is None else ridx(v.response))
     return pr
 
 
@@ -409,13 +675,25 @@ def run_case(case, flavour):
 
     fake_time = types.SimpleNamespace(time=clock.time, sleep=sleep)
     by_where = {}
-    tr = Transports(env, by_where)
+    wire = is_wire_case(case)
     saved = (dns.resolver.time, dns.asyncresolver.time, dns.query.udp, dns.query.tcp, dns.query.https,
-             dns.asyncquery.udp, dns.asyncquery.tcp, dns.asyncquery.https)
+             dns.asyncquery.udp, dns.asyncquery.tcp, dns.asyncquery.https,
+             dns.query.time, dns.asyncquery.time, dns.query.socket_factory, dns.query._wait_for)
     dns.resolver.time = fake_time
     dns.asyncresolver.time = fake_time
-    dns.query.udp, dns.query.tcp, dns.query.https = tr.udp, tr.tcp, tr.https
-    dns.asyncquery.udp, dns.asyncquery.tcp, dns.asyncquery.https = tr.audp, tr.atcp, tr.ahttps
+    if wire:
+        tr = WireLayer(env, by_where, {"udp": dns.query.udp, "tcp": dns.query.tcp,
+                                       "audp": dns.asyncquery.udp, "atcp": dns.asyncquery.tcp})
+        dns.query.time = fake_time
+        dns.asyncquery.time = fake_time
+        dns.query.socket_factory = lambda af, kind, proto: FakeSocket(env, af, kind)
+        dns.query._wait_for = tr.wait_for
+        dns.query.udp, dns.query.tcp = tr.udp, tr.tcp
+        dns.asyncquery.udp, dns.asyncquery.tcp = tr.audp, tr.atcp
+    else:
+        tr = Transports(env, by_where)
+        dns.query.udp, dns.query.tcp, dns.query.https = tr.udp, tr.tcp, tr.https
+        dns.asyncquery.udp, dns.asyncquery.tcp, dns.asyncquery.https = tr.audp, tr.atcp, tr.ahttps
     try:
         if flavour == "sync":
             res = dns.resolver.Resolver(configure=False)
@@ -467,6 +745,17 @@ def run_case(case, flavour):
         class BackendSleep(Backend):
             async def sleep(self, interval):
                 sleep(interval)
+
+            def datagram_connection_required(self):
+                return False
+
+            async def make_socket(self, af, socktype, proto=0, source=None, destination=None, timeout=None,
+                                  ssl_context=None, server_hostname=None):
+                if socktype == socket.SOCK_DGRAM:
+                    return FakeAsyncDgram(env, af)
+                if env.exchange.error:
+                    raise OSError("scripted network error")
+                return FakeAsyncStream(env, af)
 
         backend = BackendSleep(clock)
         out = []
@@ -530,7 +819,8 @@ def run_case(case, flavour):
         return [out, probes, sorted(tr.anomalies)]
     finally:
         (dns.resolver.time, dns.asyncresolver.time, dns.query.udp, dns.query.tcp, dns.query.https,
-         dns.asyncquery.udp, dns.asyncquery.tcp, dns.asyncquery.https) = saved
+         dns.asyncquery.udp, dns.asyncquery.tcp, dns.asyncquery.https,
+         dns.query.time, dns.asyncquery.time, dns.query.socket_factory, dns.query._wait_for) = saved
 
 
 # ---- interning of names (keeps the Coq case files small) --------------------------------------
@@ -549,6 +839,9 @@ def _walk_case(case, fn):
         d, rep = o
         if isinstance(rep, int):
             return [d, rep]
+        if len(rep) == 3:  # wire family: [kind, aux, message]
+            qr, rcode, nq, ans, auth = rep[2]
+            return [d, [rep[0], rep[1], [qr, rcode, nq, [rr(x) for x in ans], [rr(x) for x in auth]]]]
         qr, rcode, nq, ans, auth = rep
         return [d, [qr, rcode, nq, [rr(x) for x in ans], [rr(x) for x in auth]]]
 
@@ -1059,8 +1352,56 @@ def gen_targeted(rng, i):
     return [rcfg, reqs, [[0, rep], [5, exh_reply(rng.choice(["nx", "answer"]))]], [5, exh_reply("answer")]]
 
 
+def gen_wire(rng):
+    """wire family: Do53 servers, real dns.query.udp/tcp over scripted sockets (see WireExchange)"""
+    n = rng.choice([1, 1, 2, 3])
+    servers = [[i, 0] for i in range(n)]
+    rcfg = [servers, rng.choice([2000, 500, 1000]), rng.choice([5000, 3000, 1500, 10000]), rng.randrange(2),
+            rng.choice([0, 0, 1]), 0, rng.sample(SUFFIXES[:3], rng.choice([0, 0, 1])), ROOT, None]
+    req = [rng.choice([nm("host", "example", ""), nm("host")]), A, 1, 1 if rng.random() < 0.25 else 0,
+           1 if rng.random() < 0.7 else 0, None, rng.choice([None, 1]), 0, 0]
+    cands = py_candidates(rcfg, req[0], None if req[6] is None else bool(req[6]))
+
+    def wreply():
+        kind = rng.choice([0, 0, 0, 1, 1, 1, 2, 3, 4, 5, 6, 7])
+        aux = rng.choice([0, 0, 1, 2, 3, 4])
+        if kind == 1:
+            msg = [1, rng.choice([FORMERR, SERVFAIL, NOTIMP, REFUSED, REFUSED, NOERROR, NXDOMAIN]), 0, [], []]
+        elif kind == 2:
+            msg = [1, NOERROR, 1, rng.choice([[], [[None, 1, A, 300, 1]]]), []]
+        elif kind in (0, 5):
+            k = rng.choice(["answer", "cname", "nodata", "nx", "servfail", "refused", "formerr-rcode", "yx"])
+            msg = gen_reply(rng, k, A, 1, cands)
+            if kind == 5:
+                msg[0] = 0
+            # only record types whose scripted rdata is valid on the wire; one spelling per name (name
+            # compression is case-insensitive, so a decoded name may borrow the case of an earlier one)
+            def low(n):
+                return None if n is None else [bytes(l).lower() for l in n]
+
+            for sec in (3, 4):
+                msg[sec] = [[low(r[0]), r[1], r[2], r[3], low(r[4]) if r[2] == CNAME else r[4]]
+                            for r in msg[sec] if r[2] in (A, CNAME, SOA)]
+        else:
+            msg = [1, NOERROR, 1, [], []]
+        return [kind, aux, msg]
+
+    script = []
+    for _ in range(rng.choice([1, 2, 3, 4, 6])):
+        w = wreply()
+        script.append([0 if w[0] == 6 else rng.choice([0, 2, 10, 50, 400, 1999, 2000]), w])
+    tail = [10, rng.choice([[0, 0, [1, NOERROR, 1, [[None, 1, A, 300, 1]], []]], [7, 0, [1, NOERROR, 1, [], []]],
+                            [1, 0, [1, REFUSED, 0, [], []]], [6, 0, [1, NOERROR, 1, [], []]]])]
+    if tail[1][0] == 6:
+        tail[0] = 0
+    return [rcfg, [req], script, tail]
+
+
 def cases(ctx):
     rng = ctx.rng
+    for i in range(ctx.n(300, 4000)):
+        ctx.count("profile:wire")
+        yield "wire", intern(gen_wire(rng))
     for i in range(ctx.n(360, 3000)):
         ctx.count("profile:targeted")
         yield "targeted-%d" % (i % 6), intern(gen_targeted(rng, i))
@@ -1215,6 +1556,34 @@ def classify(reply, dur, granted, qname, qtype, qclass):
     return "other-rcode", None
 
 
+def wire_face(reply, tcp):
+    """what a server behaviour of the wire family amounts to for the resolver, by the documented
+    semantics of the transports: UDP (ignore_errors, ignore_unexpected, raise_on_truncation) skips
+    anything that is not a well-formed response to the query - a reply without question section counts
+    as a response only for FORMERR / SERVFAIL / NOTIMP / REFUSED - and reports truncation; TCP raises
+    on a malformed message (FormError), a non-response (BadResponse) and a closed connection (EOFError)"""
+    if isinstance(reply, int) or len(reply) != 3:
+        return reply
+    kind, aux, msg = reply
+    if kind == 0:
+        return msg
+    if kind == 1:
+        if msg[1] in (FORMERR, SERVFAIL, NOTIMP, REFUSED):
+            return msg
+        return 1 if tcp else X_TIMEOUT
+    if kind == 2:
+        return msg if tcp else X_TRUNC
+    if kind == 3:
+        return 2 if tcp else X_TIMEOUT
+    if kind == 4:
+        return 5 if tcp else X_TIMEOUT
+    if kind == 5:
+        return 1 if tcp else X_TIMEOUT
+    if kind == 6:
+        return 6
+    return X_TIMEOUT
+
+
 def proves_broken(cat, tcp, retry_servfail):
     return cat in ("malformed", "network", "other-rcode") or (cat == "servfail" and not retry_servfail) or (cat == "truncated" and tcp)
 
@@ -1310,6 +1679,7 @@ def check_flavour(fail0, case, res, flavour):
             if granted != exp_granted:
                 fail("per-query timeout is not min(remaining lifetime, resolver timeout)", sig="timeout-budget", event=k, expected=exp_granted)
             dur, reply = script[idx] if idx < len(script) else tail
+            reply = wire_face(reply, etcp)
             cat, ch = classify(reply, dur, granted, eq, qtype, qclass)
             cats.append((cat, ch))
             clock += max(0, granted) if cat == "timeout" else dur
@@ -1399,6 +1769,7 @@ def check_flavour(fail0, case, res, flavour):
                 ok = False
                 if src is not None:
                     dur, reply = script[src] if src < len(script) else tail
+                    reply = wire_face(reply, any(e[5] == src and e[1] for e in trace))
                     if not isinstance(reply, int) and reply[1] == NXDOMAIN:
                         # the reply was given for this very name: in this trace or remembered from the cache
                         if any(e[5] == src and name_eq(e[4], c) and cats[i][0] == "nxdomain" for i, e in enumerate(trace)):
